@@ -170,12 +170,9 @@ def run(ctx):
                 break
 
     scan_windows(ctx, ctx.budget(90, 2500))
-<<<<<<< HEAD
     mgs_premises(ctx, ctx.budget(80, 2000))
-=======
     import e3window   # E3: get_subgraph_between_topological_nodes == SubgraphBound.window_subgraph_opt (subgraph-scanning lower bound)
     e3window.run_window_e3(ctx, ctx.budget(150, 3000))
->>>>>>> agent-walk
 
 
 def scan_instance(rng, big):
